@@ -655,3 +655,83 @@ _run_c02_16 = run
 def run(res, facts, tier):
     _run_c02_16(res, facts, tier)
     r7_position_cache(res, facts)
+
+
+# ----------------------------------------------------------------------------------------------- R6: IEEE arithmetic primitives
+def r6_ieee(res, facts):
+    import math, itertools
+    from ..mast import Machine, Unsupported as _U, ieee_arith
+    r = res.rule('C02-R6', 'DoubleSupport arithmetic and comparison primitives (what the XPath operators + - * div = != < <= > >= and unary minus evaluate to) agree with IEEE 754 on '
+                 'every pair of value classes {NaN, +inf, -inf, +0, -0, positive, negative}: decided by interpreting their bodies', floor=400)
+    D = [float('nan'), float('inf'), float('-inf'), 0.0, -0.0, 1.5, -1.5, 2.0, -3.0]
+
+    def same(x, y):
+        if isinstance(x, float) and isinstance(y, float):
+            if x != x or y != y:
+                return (x != x) and (y != y)
+            return x == y and math.copysign(1.0, x) == math.copysign(1.0, y)
+        return x == y
+
+    def hook(m, c):
+        n = c.get('n') or ''
+        a = [m.ev(x) for x in c['args']] if n in ('isNaN', 'isPositiveInfinity', 'isNegativeInfinity', 'isPositiveZero', 'isNegativeZero') else None
+        if n == 'isNaN':
+            return int(a[0] != a[0])
+        if n == 'isPositiveInfinity':
+            return int(a[0] == float('inf'))
+        if n == 'isNegativeInfinity':
+            return int(a[0] == float('-inf'))
+        if n == 'isPositiveZero':
+            return int(a[0] == 0.0 and math.copysign(1.0, a[0]) > 0)
+        if n == 'isNegativeZero':
+            return int(a[0] == 0.0 and math.copysign(1.0, a[0]) < 0)
+        if n == 'getNaN':
+            return float('nan')
+        if n == 'getPositiveInfinity':
+            return float('inf')
+        if n == 'getNegativeInfinity':
+            return float('-inf')
+        if (c.get('cls') or '').endswith('DoubleSupport') and c.get('usr') in facts.astidx:
+            sub = facts.ast(c['usr'])
+            mm = Machine({p_['id']: m.ev(x_) for p_, x_ in zip(sub['params'], c['args'])}, call_hook=hook)
+            return mm.call(sub['body'])
+        return NotImplemented
+    ops2 = {'add': lambda x, y: x + y, 'subtract': lambda x, y: x - y, 'multiply': lambda x, y: x * y, 'divide': lambda x, y: ieee_arith('/', x, y),
+            'equal': lambda x, y: int(x == y), 'notEqual': lambda x, y: int(x != y), 'lessThan': lambda x, y: int(x < y), 'lessThanOrEqual': lambda x, y: int(x <= y),
+            'greaterThan': lambda x, y: int(x > y), 'greaterThanOrEqual': lambda x, y: int(x >= y)}
+    fmt = lambda v: repr(v)
+    for fn, oracle in ops2.items():
+        asts = facts.asts('DoubleSupport::' + fn)
+        a = [x for x in asts if len(x['params']) == 2][0]
+        for x, y in itertools.product(D, D):
+            m = Machine({a['params'][0]['id']: x, a['params'][1]['id']: y}, call_hook=hook)
+            try:
+                got = m.call(a['body'])
+            except _U as u:
+                raise AnalysisBroken('DoubleSupport::%s outside the interpreted subset: %s' % (fn, u))
+            want = oracle(x, y)
+            got = float(got) if isinstance(want, float) and isinstance(got, (int, float)) else (int(bool(got)) if isinstance(want, int) else got)
+            site = 'DoubleSupport::%s(%s, %s)' % (fn, fmt(x), fmt(y))
+            if same(got, want):
+                r.ok(site, fmt(got))
+            else:
+                r.violation(site, 'yields %s, IEEE 754 (XPath 1.0 §3.5 / §3.4) requires %s' % (fmt(got), fmt(want)), common.file_line(a))
+    a = facts.asts('DoubleSupport::negative')[0]
+    for x in D:
+        m = Machine({a['params'][0]['id']: x}, call_hook=hook)
+        got = m.call(a['body'])
+        want = -x
+        site = 'DoubleSupport::negative(%s)' % fmt(x)
+        if same(float(got), want):
+            r.ok(site)
+        else:
+            r.violation(site, 'yields %s, IEEE requires %s' % (fmt(got), fmt(want)), common.file_line(a))
+    return r
+
+
+_run_c02_17 = run
+
+
+def run(res, facts, tier):
+    _run_c02_17(res, facts, tier)
+    r6_ieee(res, facts)
